@@ -19,7 +19,8 @@ def items(ctx):
         c = {"s1": [[v] for v in s1], "s2": [[v] for v in s2], "w": rng.choice([0, 0, 1, 2, 3]),
              "pen": rng.choice([0, 0, SC // 4, SC]), "pen_none": rng.random() < 0.5,
              # tau between two attainable affinities: 0.3 (between 1/2 and 1/16), 0.75 (between 1 and 1/2), 0 (off)
-             "tau2": rng.choice([1, 78643, 196609]), "delta": -SC * rng.choice([0, 1, 2]),
+             # ... and tau EXACTLY an attainable affinity (1, 1/2, 1/16): "below tau" is strict
+             "tau2": rng.choice([1, 78643, 196609, 2 * SC, SC, SC // 8]), "delta": -SC * rng.choice([0, 1, 2]),
              "dfnum": 1, "dfden": rng.choice([1, 2]), "triu": rng.random() < 0.3, "psi": [0, 0, 0, 0]}
         variants = [{"use_c": False}, {"use_c": True, "compact": False}, {"use_c": True, "compact": True}]
         calls = []
@@ -53,7 +54,7 @@ def items(ctx):
 
 RULE = ("exact regime gamma = ln 2 (affinity 2^-d^2, |d| <= 3), scale 2^17; cases: all series pairs up to 3x3 over {0,1,3} "
         "(quick: thinned) and seeded pairs up to 5x4 (and self-comparison) x window x penalty (none / 0 / 1/4 / 1) x tau "
-        "(0, 0.3, 0.75: between attainable affinities) x delta (0,-1,-2) x delta_factor (1, 1/2) x only_triu; recorded: the "
+        "(0, 0.3, 0.75: between attainable affinities; 1, 1/2, 1/16: exactly attainable ones) x delta (0,-1,-2) x delta_factor (1, 1/2) x only_triu; recorded: the "
         "matrix of warping_paths_affinity (Python), via use_c, warping_paths_affinity_fast, and compact + full-range "
         "expansion; and local_concurrences histories of 1-3 kbest_matches calls (k, minlen, buffer, restart/keep) for "
         "Python / C / C-compact; TLC judges every cell against the recurrence and every history by HistoryOK "
